@@ -62,7 +62,8 @@ def views_of(cfg):
             mws, e = merge_middlewares(levels[j]['mws'], mws)
             err = err or e
             res |= set(levels[j]['resources'])
-        out.append({'level': k, 'kind': 'route', 'bindings': list(route['bindings']), 'resources': res,
+        pbind = [b for j in range(k, len(levels) - 1) for b in (levels[j].get('prefix_bindings') or [])]
+        out.append({'level': k, 'kind': 'route', 'bindings': pbind + list(route['bindings']), 'resources': res,
                     'mws': mws, 'endpoint': route['endpoint'], 'render': route.get('render'),
                     'merge_error': err, 'reserved_app_resources': []})
     return out
@@ -122,7 +123,7 @@ def verdict(view):
     def offer(name, src):
         offered.setdefault(name, []).append(src)
     for b in view['bindings']:
-        offer(b, 'url')
+        offer(b, 'url')        # a name bound twice (prefix and pattern) is two offers - and an invalid pattern
     for r in view['resources']:
         offer(r, 'resource')
     for b in RESERVED:
